@@ -563,6 +563,8 @@ def env_paths(f, store):
             if ins.op == 'store':
                 ptr = ins.ops[1]
             elif ins.op == 'call' and (ins.callee or '').startswith(('llvm.memset', 'llvm.memcpy')):
+                if const_int(ins.args[2]) == 0:
+                    continue        # memset of an empty struct (prof_data without profiling): writes nothing
                 ptr = ins.args[0]
             else:
                 continue
@@ -582,7 +584,7 @@ def rule7_worker_record(ctx, fl):
             'reads is written on the start-up path of a secondary worker (myth_worker_thread_fn) and on that of worker 0 '
             '(myth_startpoint_init_ex_body), setup_worker inlined in both')
     starts = ['myth_worker_thread_fn', 'myth_startpoint_init_ex_body']
-    users = ['myth_sched_loop', 'myth_startpoint_exit_ex_body']
+    users = ['myth_sched_loop', 'myth_startpoint_exit_ex_body', 'myth_cleanup_worker']
     v = ctx.view(INITF, roots=starts + users,
                  stops=('myth_malloc', 'myth_free', 'myth_flmalloc', 'myth_flfree', 'fprintf', 'abort', 'myth_mmap', 'myth_queue_push',
                         'myth_queue_pop', 'myth_queue_take', 'time', 'myth_random_init', 'myth_get_current_env') + lib.SPIN_STOPS, flavour=fl)
@@ -646,6 +648,8 @@ INITC = 'src/myth_init.c'
 BIND = 'src/myth_bind_worker.c'
 INITH = 'src/myth_init_func.h'
 MUTANTS = [
+    {'name': 'secondary workers start without clearing the scheduler stack pointer that cleanup frees (seed5 C15/m1)', 'expect': 'C15.7',
+     'edits': [('src/myth_worker_func.h', "  env=myth_get_current_env();\n  env->sched.stack=NULL;\n  //Call thread scheduler", "  env=myth_get_current_env();\n  //Call thread scheduler")]},
     {'name': 'usable-CPU counter not reset by re-initialisation (seed4 C15/m2)', 'expect': 'C15.4',
      'edits': [('src/myth_bind_worker.c', "  n_available_cpus = 0;\n  if (n_specified_cpus == -1) {", "  if (n_specified_cpus == -1) {")]},
     {'name': 'global attribute setter on NULL does not materialise the defaults first (seed4 C15/m1)', 'expect': 'C15.10',
